@@ -17,19 +17,27 @@ Definition eff_l (l : aleg) (x : nat) : list instate :=
 
 Definition ntag (c : acase) : nat := length (w_handlers (c_w c)).
 
-(** Base: after the start-of-run event everything that generates has been created by it. *)
-Definition frame0_ok (c : acase) (l1 : aleg) : bool :=
+(** Base: the first event (of tagger [t0], in practice the start-of-run event) creates everything
+    that generates afterwards; the start-of-run tagger itself is one-shot. *)
+Definition frame0_ok (c : acase) (l0 l1 : aleg) : bool :=
+  let t0 := tg (c_w c) (l_pick l0) in
+  match kind_of c (w_start (c_w c)) with TOneShot => true | _ => false end &&
   forallb (fun x =>
              match kind_of c x with
              | TOneShot => true
-             | _ => mem x (nthl (w_creates (c_w c)) (w_start (c_w c)))
+             | _ => mem x (nthl (w_creates (c_w c)) t0)
                     || match eff_l l1 x with [] => true | _ => false end
              end) (seq 0 (ntag c)).
+
+(** The create list of every tagger has no duplicate (else a tagger would be started twice). *)
+Fixpoint nodupb (l : list nat) : bool :=
+  match l with [] => true | x :: r => negb (mem x r) && nodupb r end.
+Definition creates_nodup (c : acase) : bool := forallb nodupb (w_creates (c_w c)).
 
 Fixpoint frames_ok (c : acase) (ls : list aleg) : bool :=
   match ls with
   | l0 :: ((l1 :: _) as r) =>
-      forallb (fun x => frame_ok_x (c_w c) (nth (l_pick l0) (w_tagger_of (c_w c)) 0) x (kind_of c x)
+      forallb (fun x => frame_ok_x (c_w c) (tg (c_w c) (l_pick l0)) x (kind_of c x)
                                    (eff_l l0 x) (eff_l l1 x)) (seq 0 (ntag c))
       && frames_ok c r
   | _ => true
@@ -37,7 +45,9 @@ Fixpoint frames_ok (c : acase) (ls : list aleg) : bool :=
 
 Definition check_acase (c : acase) : bool :=
   run_conf (c_w c) (a_init (c_w c)) None (c_legs c)
+  && creates_nodup c
+  && Nat.leb (length (c_kinds c)) (ntag c)
   && match c_legs c with
-     | l0 :: ((l1 :: _) as r) => frame0_ok c l1 && frames_ok c r
+     | l0 :: ((l1 :: _) as r) => frame0_ok c l0 l1 && frames_ok c r
      | _ => true
      end.
